@@ -146,12 +146,46 @@ def bits_of(t):
     if k == 'bv':
         return t[2]
     if k == 'lin':
+        exact = _lin_fields(t)
+        if exact is not None:
+            return exact
         leaf = ('opq', t[1], 'lin', (t[2], t[3]))
         return tuple((leaf, i) for i in range(t[1]))
     if k == 'atom':
         leaf = ('opq', 1, 'atom', t[1])
         return ((leaf, 0),)
     raise Unsupported('bits_of %r' % (t,))
+
+
+def _lin_fields(t):
+    """Bits of c0 + sum 2^s_i * leaf_i when the shifted leaves and the constant occupy pairwise disjoint bit ranges
+    inside the width (a multiplication by a power of two used as a shift, an addition used as an OR): exact, else None."""
+    w, c0, terms = t[1], t[2], t[3]
+    if c0 < 0 or c0 >> w:
+        return None
+    out = [(c0 >> i) & 1 for i in range(w)]
+    used = [b != 0 for b in out]
+    for leaf, c in terms:
+        if c <= 0 or c & (c - 1):
+            return None
+        sh = c.bit_length() - 1
+        try:
+            lb = leaf_bits(leaf)
+        except Unsupported:
+            return None
+        n = len(lb)
+        while n > 0 and lb[n - 1] == 0:
+            n -= 1
+        if sh + n > w:
+            return None
+        for i in range(n):
+            if lb[i] == 0:
+                continue
+            if used[sh + i]:
+                return None
+            used[sh + i] = True
+            out[sh + i] = lb[i]
+    return tuple(out)
 
 
 def lin_of(t):
@@ -497,6 +531,33 @@ def cast_bits(t, w2, signed_src):
     return mk_bv(w2, tuple(bits) + (fill,) * (w2 - w1))
 
 
+def _shifted_lin(t):
+    """t = bits [k, w) of the opaque leaf of one linear value, zero-extended (i.e. floor(x / 2^k) when x is in range):
+    -> (k, c0, terms dict, w) or None."""
+    if t[0] != 'bv':
+        return None
+    bits = t[2]
+    first = bits[0]
+    if not (isinstance(first, tuple) and len(first) == 2):
+        return None
+    leaf, k = first
+    if not (isinstance(leaf, tuple) and leaf[0] == 'opq' and leaf[2] == 'lin'):
+        return None
+    w = leaf[1]
+    if k <= 0 or k >= w:
+        return None
+    n = w - k
+    if len(bits) < n:
+        return None
+    for i in range(n):
+        if bits[i] != (leaf, k + i):
+            return None
+    if any(b != 0 for b in bits[n:]):
+        return None
+    c0, terms = leaf[3]
+    return k, c0, dict(terms), w
+
+
 # ----------------------------------------------------------------------------- knowledge
 
 class Infeasible(Exception):
@@ -763,6 +824,34 @@ class Know:
                     return
                 except CannotEval:
                     pass
+        # floor(x / 2^k) compared with a constant, x linear (`x >> 8 == 0`, `x / 256 != 0`): bounds on x itself
+        for side, other, flip in ((a, b, False), (b, a, True)):
+            sl = _shifted_lin(side)
+            if sl is None or not is_const(other):
+                continue
+            k_, c0_, terms_, w_ = sl
+            lo_, hi_ = self.interval(c0_, terms_)
+            if lo_ < 0 or hi_ >> w_:
+                continue            # the opaque leaf is x mod 2^w, not x
+            c_ = other[2]
+            if op == 'eq':
+                if not neg:
+                    self._add_bound(c0_, terms_, c_ << k_, ((c_ + 1) << k_) - 1)
+                elif c_ == 0:
+                    self._add_bound(c0_, terms_, 1 << k_, None)
+            else:
+                # op is '<': side < other (flip: other < side)
+                if not flip:
+                    if not neg:
+                        self._add_bound(c0_, terms_, None, (c_ << k_) - 1)
+                    else:
+                        self._add_bound(c0_, terms_, c_ << k_, None)
+                else:
+                    if not neg:
+                        self._add_bound(c0_, terms_, (c_ + 1) << k_, None)
+                    else:
+                        self._add_bound(c0_, terms_, None, ((c_ + 1) << k_) - 1)
+            return
         try:
             ca, ta = lin_of(a)
             cb, tb = lin_of(b)
